@@ -80,6 +80,13 @@ def build(ctx, target, op, nlri_mode):
     f = flags
     if op == 'flags':
         f = 0x40 * ctx.int('t.fbits', 0, 3) + 0x20 * ctx.int('t.partial', 0, 1)
+    elif flags & 0xC0 == 0xC0:
+        # an optional transitive attribute may arrive with the PARTIAL bit (RFC 4271 4.3: a speaker on the way did not recognise
+        # it): legal either way, and no reason to treat a malformed value differently (RFC 7606 makes no such exception)
+        partial = ctx.int('t.partial', 0, 1)
+        f = flags + 0x20 * partial
+        if bool(partial == 1):
+            ctx.cover('partial-bit-set')
     # the length octets: one octet, or two with the EXTENDED_LENGTH bit (RFC 4271 4.3 allows it on any attribute) — the
     # length arithmetic of the parser differs between the two forms, so the corrupted attribute is tried in both
     ext = bool(ctx.bool('t.ext')) if op in ('overrun', 'short', 'long') else False
